@@ -2388,6 +2388,76 @@ static std::vector<QuadCase> build_quad_cases(ElossWorld& W, bool thorough)
                     Q.R.tag("quad:urban-stage:ion-fast:gaussian-median");
                     Q.R.nontrivial(vf::hash_str(Q.cid));
                 });
+                // (d2) the energy of ONE individually sampled collision where alpha != 1 (in the Poisson-only
+                // cases above alpha == 1, where alpha E0 == E0 and alpha/R == 1/R).  Explicit words, lower word 0:
+                //   1,2  normal pair at (1/2,1/2): z = r sin(pi) ~ 1e-16, Gaussian part == its mean, accepted
+                //   3    u = 1/2:  1/2 > exp(-lam)  (checked: lam > ln 2)  -> the Poisson loop continues
+                //   4    u = 2^-13: 2^-14 <= exp(-lam) (lam < 8 < 14 ln 2) -> exactly ONE collision
+                //   5    the 2^b1 lattice midpoints: y = alpha E0 / U(alpha/R, 1), monotone in u5
+                // y = x - g0 with g0 the sample of the no-collision script {1/2, 1/2, 2^-32}; law
+                //   F(y) = (1 - alpha E0/y) / (1 - alpha E0/Tmax) on [alpha E0, Tmax], alpha from PHYS332 Eq. 25.
+                add("eloss-urban", fmt("stage:ionisation:fast:%s:single-collision-spectrum above alpha E0", io.second), [=](Quad& Q) {
+                    EnergyLossUrbanDistribution d = make(u);
+                    ld lam, mlow;
+                    ref(d, &lam, &mlow);
+                    ld const e0 = 1e-5L, tmax = d.max_energy_, R = tmax / e0, n3 = d.xs_ion_;
+                    ld const alpha = (n3 + 8) * R / (8 * R + n3);
+                    if (!(d.xs_ion_ > 8 && lam > 0.7L && lam < 8 && alpha > 1.5L && alpha * e0 < tmax))
+                    {
+                        Q.R.harness_error(fmt("%s: xs_ion=%g lam=%Lg alpha=%Lg: not a fast-regime single-collision set-up",
+                                              Q.cid.c_str(), d.xs_ion_, lam, alpha));
+                        return;
+                    }
+                    double g0;
+                    {
+                        Eng e({0x80000000u, 0x80000000u, 0x00000001u}, mix64(Q.seed()), 0u);
+                        g0 = d.sample_ionization_loss(e);
+                        if (e.canonicals() != 3)
+                        {
+                            Q.R.harness_error(fmt("%s: the no-collision script drew %llu canonicals", Q.cid.c_str(),
+                                                  (unsigned long long)e.canonicals()));
+                            return;
+                        }
+                    }
+                    uint64_t const N = L1.size();
+                    std::vector<double> ys;
+                    ys.reserve(N);
+                    std::vector<uint32_t> sc(1);
+                    uint64_t badc = 0;
+                    for (uint64_t idx = 0; idx < N; ++idx)
+                    {
+                        L1.script(idx, sc);
+                        Eng e({0x80000000u, 0x80000000u, 0x80000000u, 0x00080000u, sc[0]}, mix64(Q.seed() + idx), 0u);
+                        double x = d.sample_ionization_loss(e);
+                        if (e.canonicals() != 5)
+                            ++badc;
+                        ys.push_back(x - g0);
+                    }
+                    if (badc)
+                    {
+                        Q.R.violation("quad:eloss-urban:fast-ionisation-draw-pattern", Q.cid,
+                                      fmt("%llu of %llu scripts did not consume exactly 5 canonicals (normal pair, two Poisson "
+                                          "uniforms 1/2 and 2^-13 -> one collision, one energy fraction); lambda = %Lg",
+                                          (unsigned long long)badc, (unsigned long long)N, lam));
+                        return;
+                    }
+                    ld const ae0 = alpha * e0;
+                    double dist = ks_sup(ys,
+                                         [=](double y) {
+                                             if (y <= ae0)
+                                                 return ld(0);
+                                             if (y >= tmax)
+                                                 return ld(1);
+                                             return (1 - ae0 / ld(y)) / (1 - ae0 / tmax);
+                                         },
+                                         1);
+                    Q.judge("cdf of the collision energy (x - Gaussian part)", dist, L1.lterm(mono1), 0, N);
+                    Q.R.note("info:" + Q.cid, fmt("alpha=%Lg alpha*E0=%Lg Tmax=%Lg lambda=%Lg g0=%g min y=%g max y=%g", alpha, ae0,
+                                                  tmax, lam, g0, ys.front(), ys.back()));
+                    Q.R.count("evaluations", N);
+                    Q.R.tag("quad:urban-stage:ion-fast:single-collision");
+                    Q.R.nontrivial(vf::hash_str(Q.cid));
+                });
             }
         }
     }
